@@ -2,6 +2,7 @@ package rules
 
 import (
 	"fmt"
+	"go/constant"
 	"go/token"
 	"go/types"
 	"regexp"
@@ -765,9 +766,11 @@ func runC13(c *core.Ctx) core.Meta {
 		}
 	}
 
+	checkRaiseOnlyUpdates(c)
+
 	return core.Meta{Level: "other",
 		Explanation: "Loading decided against an external oracle, the published amd_kernel_code_t and kernel_descriptor_t layouts transcribed as offset/width tables: every metadata read of both parsers and of the header sniffer is compared with its table row (offset, width, slice width, flag bit), bounds of the parsers against what their callers establish, precedence of the V5 descriptor over header sniffing, stripping only under a positive sniff, kernel bytes = the named symbol's range of .text, descriptor selected by name+\".kd\", size 64, inside .rodata.",
-		NotDecided:  "ELF parsing (debug/elf), the register-count override arithmetic from metadata symbols, the V5 policy overrides of rsrc2 and SGPR enables",
+		NotDecided:  "ELF parsing (debug/elf), the rounding arithmetic of the register-count override from metadata symbols (which field is raised from which symbol, and against which field it is compared, is decided by R13.7), the V5 policy overrides of rsrc2 and SGPR enables",
 		Assumptions: append([]string{"the transcribed layouts follow the LLVM AMDGPU usage document (amd_kernel_code_t; kernel_descriptor_t with compute_pgm_rsrc3/1/2 at bytes 44/48/52 and kernel_code_properties at 56)"}, commonAssumptions...)}
 }
 
@@ -793,4 +796,152 @@ func fieldOwner(v ssa.Value) string {
 		}
 	}
 	return ""
+}
+
+// checkRaiseOnlyUpdates (R13.7): the metadata symbols <kernel>.numbered_sgpr / <kernel>.num_vgpr
+// raise the register counts of the descriptor; the loaded count is max(descriptor, symbol).
+// A raise-only update `if v > m.F { m.F = v }` has to compare with the field it stores, and the
+// field has to be the one the symbol names.
+func checkRaiseOnlyUpdates(c *core.Ctx) {
+	st := c.Rule("R13.7", "the metadata symbols raise the register counts the descriptor gives (loaded count = max(descriptor count, rounded symbol count), independent of the other count and of the symbol order): in the loader, every store of a value v to a metadata field that is guarded by an ordering comparison of v with a metadata field compares with the field that is stored; the store under the arm of <kernel>.numbered_sgpr goes to WFSgprCount and the one under <kernel>.num_vgpr to WIVgprCount", 2)
+	pi := NewPkgInfo(c, instsPkg)
+	if pi.Pkg == nil {
+		return
+	}
+	wantField := map[string]string{".numbered_sgpr": "WFSgprCount", ".num_vgpr": "WIVgprCount"}
+	armOf := func(g *core.Graph, fn *ssa.Function, sto *ssa.Store, sfa *ssa.FieldAddr) {
+		n := g.NodeOf(sto)
+		if n == nil {
+			return
+		}
+		for suffix, want := range wantField {
+			suffix := suffix
+			cut := CmpCut(func(_ *core.Node, op token.Token, x, y ssa.Value) int {
+				if op != token.EQL {
+					return 0
+				}
+				for _, z := range []ssa.Value{x, y} {
+					if add, ok := z.(*ssa.BinOp); ok && add.Op == token.ADD {
+						if k, ok := add.Y.(*ssa.Const); ok && k.Value != nil && k.Value.Kind() == constant.String && constant.StringVal(k.Value) == suffix {
+							return 1
+						}
+					}
+				}
+				return 0
+			})
+			if !g.Guarded(n, cut) {
+				continue
+			}
+			okF := fieldNameOf(sfa) == want
+			st.Ob(okF)
+			st.Sample("%s: under the arm of <kernel>%s the store goes to %s", core.FuncName(fn), suffix, fieldNameOf(sfa))
+			if !okF {
+				c.ReportAt("R13.7", fn, sto.Pos(), "symbol-arm:"+suffix+":stores-"+fieldNameOf(sfa), core.FuncName(fn)+" raises "+fieldNameOf(sfa)+" from the symbol <kernel>"+suffix+", which names the other register file ("+want+")")
+			}
+		}
+	}
+	isMeta := func(fa *ssa.FieldAddr) bool {
+		return strings.HasSuffix(namedTypeName(fa.X.Type()), "KernelCodeObjectMeta")
+	}
+	for _, fn := range pi.Funcs {
+		var g *core.Graph
+		// m.F = max(m.G, v)
+		for _, b := range fn.Blocks {
+			for _, in := range b.Instrs {
+				sto, ok := in.(*ssa.Store)
+				if !ok {
+					continue
+				}
+				sfa, ok := sto.Addr.(*ssa.FieldAddr)
+				if !ok || !isMeta(sfa) {
+					continue
+				}
+				call, ok := sto.Val.(*ssa.Call)
+				if !ok {
+					continue
+				}
+				if bi, isB := call.Call.Value.(*ssa.Builtin); !isB || (bi.Name() != "max" && bi.Name() != "min") {
+					continue
+				}
+				for _, a := range call.Call.Args {
+					ld, ok := a.(*ssa.UnOp)
+					if !ok || ld.Op != token.MUL {
+						continue
+					}
+					cfa, ok := ld.X.(*ssa.FieldAddr)
+					if !ok || !isMeta(cfa) || cfa.X != sfa.X {
+						continue
+					}
+					st.Instances++
+					c.MarkAnalysed(fn)
+					same := sfa.Field == cfa.Field
+					st.Ob(same)
+					st.Sample("%s: %s = max(%s, ...)", core.FuncName(fn), fieldNameOf(sfa), fieldNameOf(cfa))
+					if !same {
+						c.ReportAt("R13.7", fn, sto.Pos(), "raise-only:"+fieldNameOf(sfa)+":compared-with-"+fieldNameOf(cfa), core.FuncName(fn)+" stores in "+fieldNameOf(sfa)+" the maximum of "+fieldNameOf(cfa)+" and the count from the metadata symbol: the loaded count depends on a different register count")
+					}
+					if g == nil {
+						g = core.BuildGraph(fn, 0, nil)
+					}
+					armOf(g, fn, sto, sfa)
+				}
+			}
+		}
+		for _, b := range fn.Blocks {
+			iff, ok := b.Instrs[len(b.Instrs)-1].(*ssa.If)
+			if !ok {
+				continue
+			}
+			cmp, ok := iff.Cond.(*ssa.BinOp)
+			if !ok {
+				continue
+			}
+			switch cmp.Op {
+			case token.GTR, token.LSS, token.GEQ, token.LEQ:
+			default:
+				continue
+			}
+			for _, side := range [][2]ssa.Value{{cmp.X, cmp.Y}, {cmp.Y, cmp.X}} {
+				v, other := side[0], side[1]
+				ld, ok := other.(*ssa.UnOp)
+				if !ok || ld.Op != token.MUL {
+					continue
+				}
+				cfa, ok := ld.X.(*ssa.FieldAddr)
+				if !ok || !isMeta(cfa) {
+					continue
+				}
+				if _, isConst := v.(*ssa.Const); isConst {
+					continue
+				}
+				for _, succ := range b.Succs {
+					if len(succ.Preds) != 1 {
+						continue
+					}
+					for _, in := range succ.Instrs {
+						sto, ok := in.(*ssa.Store)
+						if !ok || sto.Val != v {
+							continue
+						}
+						sfa, ok := sto.Addr.(*ssa.FieldAddr)
+						if !ok || sfa.X != cfa.X {
+							continue
+						}
+						st.Instances++
+						c.MarkAnalysed(fn)
+						same := sfa.Field == cfa.Field
+						st.Ob(same)
+						st.Sample("%s: %s is raised under a comparison with %s", core.FuncName(fn), fieldNameOf(sfa), fieldNameOf(cfa))
+						if !same {
+							c.ReportAt("R13.7", fn, cmp.Pos(), "raise-only:"+fieldNameOf(sfa)+":compared-with-"+fieldNameOf(cfa), core.FuncName(fn)+" stores "+fieldNameOf(sfa)+" under a comparison with "+fieldNameOf(cfa)+": whether the count from the metadata symbol is taken depends on a different register count (and, since that one is raised in the same loop, on the order of the symbols); a descriptor count that is too small is not corrected, or a larger one is lowered")
+						}
+						if g == nil {
+							g = core.BuildGraph(fn, 0, nil)
+						}
+						armOf(g, fn, sto, sfa)
+					}
+				}
+			}
+		}
+	}
 }
